@@ -202,6 +202,7 @@ package raft
 //@ func (l *entryLog) term [C19 C02]
 //@ requires l.valid()
 //@ ensures result1 == nil ==> result0 == l.termAt(index)
+//@ ensures result1 != nil ==> result0 == 0
 //@ ensures (index < l.firstIdx() - 1 || index > l.lastIdx()) ==> result1 == nil && result0 == 0
 
 //@ func (l *entryLog) lastTerm [C19]
@@ -636,3 +637,92 @@ package raft
 //@ ensures result1 == nil && len(result0.EntriesToSave) > 0 ==> result0.UpdateCommit.StableLogTo == result0.EntriesToSave[len(result0.EntriesToSave) - 1].Index
 //@ ensures result1 == nil ==> result0.UpdateCommit.StableSnapshotTo == result0.Snapshot.Index && result0.UpdateCommit.LastApplied == lastApplied
 //@ ensures result1 == nil && result0.FastApply ==> result0.Snapshot.Index == 0
+
+// Commit: precondition = the Peer API protocol (ud is the update last returned by GetUpdate, its
+// EntriesToSave have been persisted and made known to the LogReader). It is assumed at the API
+// boundary (engine/node are not under contract for it).
+//@ func (p *Peer) Commit [C19 C04]
+//@ requires p.raft != nil && p.raft.wf()
+//@ requires ud.UpdateCommit.LastApplied > 0 ==> ud.UpdateCommit.LastApplied <= p.raft.log.logdb.glast &&
+//@    (forall i int :: p.raft.log.inmem.markerIndex <= i && i <= ud.UpdateCommit.LastApplied && i < p.raft.log.inmem.markerIndex + len(p.raft.log.inmem.entries) ==> p.raft.log.logdb.gterm[i] == p.raft.log.inmem.entries[i - p.raft.log.inmem.markerIndex].Term)
+//@ modifies p.raft.msgs, p.raft.logQueryResult, p.raft.leaderUpdate, p.raft.droppedEntries, p.raft.droppedReadIndexes, p.prevState, p.raft.readyToRead
+//@ modifies p.raft.log.inmem.savedTo, p.raft.log.inmem.snapshot, p.raft.log.processed, p.raft.log.inmem.appliedToIndex, p.raft.log.inmem.appliedToTerm, p.raft.log.inmem.shrunk, p.raft.log.inmem.entries, p.raft.log.inmem.markerIndex
+//@ ensures len(p.raft.msgs) == 0
+//@ ensures !(ud.State.Term == 0 && ud.State.Vote == 0 && ud.State.Commit == 0) ==> p.prevState == ud.State
+//@ ensures (ud.State.Term == 0 && ud.State.Vote == 0 && ud.State.Commit == 0) ==> p.prevState == old(p.prevState)
+//@ ensures ud.UpdateCommit.Processed > 0 ==> p.raft.log.processed == ud.UpdateCommit.Processed && ud.UpdateCommit.Processed <= p.raft.log.committed
+//@ ensures ud.UpdateCommit.Processed == 0 ==> p.raft.log.processed == old(p.raft.log.processed)
+//@ ensures p.raft.log.committed == old(p.raft.log.committed)
+//@ ensures p.raft.log.inmem.markerIndex + len(p.raft.log.inmem.entries) == old(p.raft.log.inmem.markerIndex + len(p.raft.log.inmem.entries))
+
+// ---------------------------------------------------------------- ReadIndex bookkeeping (C06)
+
+//@ pred (r *readIndex) Q() := r.pending != nil && len(r.queue) == len(r.pending) &&
+//@   (forall i int :: 0 <= i && i < len(r.queue) ==> r.queue[i] in r.pending && r.pending[r.queue[i]] != nil)
+
+//@ func (r *readIndex) hasPendingRequest [C06]
+//@ ensures result == (len(r.queue) > 0)
+
+//@ func (r *readIndex) peepCtx [C06]
+//@ requires len(r.queue) > 0
+//@ ensures result == r.queue[len(r.queue) - 1]
+
+//@ func (r *readIndex) addRequest [C06]
+//@ requires r.Q()
+//@ modifies r.queue, entries(r.pending), elems(r.queue[len(r.queue):])
+//@ ensures old(ctx in r.pending) ==> len(r.queue) == old(len(r.queue)) && len(r.pending) == old(len(r.pending))
+//@ ensures !old(ctx in r.pending) ==> len(r.queue) == old(len(r.queue)) + 1 && r.queue[len(r.queue) - 1] == ctx &&
+//@    ctx in r.pending && r.pending[ctx] != nil && fresh(r.pending[ctx]) && r.pending[ctx].index == index && r.pending[ctx].from == from &&
+//@    r.pending[ctx].ctx == ctx && len(r.pending[ctx].confirmed) == 0 && len(r.pending) == old(len(r.pending)) + 1
+// indexes never move backward along the queue
+//@ ensures !old(ctx in r.pending) && old(len(r.queue)) > 0 ==> index >= old(r.pending[r.queue[len(r.queue) - 1]].index)
+
+// confirm: requests are released only once a quorum of distinct members (the leader itself
+// plus the distinct senders recorded in the confirmed set) has confirmed leadership after admission.
+//@ func (r *readIndex) confirm [C06]
+//@ noframe
+//@ requires r.Q() && (ctx in r.pending ==> r.pending[ctx].confirmed != nil)
+//@ modifies r.queue, entries(r.pending), allof(readStatus.index)
+//@ ensures !old(ctx in r.pending) ==> len(result) == 0 && len(r.queue) == old(len(r.queue)) && len(r.pending) == old(len(r.pending))
+//@ ensures len(result) > 0 ==> old(ctx in r.pending) && len(old(r.pending[ctx]).confirmed) + 1 >= quorum && from in old(r.pending[ctx]).confirmed
+//@ ensures old(ctx in r.pending) ==> from in old(r.pending[ctx]).confirmed &&
+//@    (forall k uint64 :: k != from ==> (k in old(r.pending[ctx]).confirmed) == old(k in r.pending[ctx].confirmed)) &&
+//@    len(old(r.pending[ctx]).confirmed) == old(len(r.pending[ctx].confirmed)) + ite(old(from in r.pending[ctx].confirmed), 0, 1)
+//@ ensures old(ctx in r.pending) && old(len(r.pending[ctx].confirmed)) + ite(old(from in r.pending[ctx].confirmed), 0, 1) + 1 < quorum ==> len(result) == 0 && len(r.queue) == old(len(r.queue))
+//@ loop 1 invariant done == $i + 1 && len(r.queue) == old(len(r.queue))
+
+//@ func (r *raft) hasCommittedEntryAtCurrentTerm [C06]
+//@ requires r.wf()
+//@ ensures r.term != 0
+//@ ensures result ==> r.log.termAt(r.log.committed) == r.term || r.term == 0
+
+//@ func (r *raft) broadcastHeartbeatMessageWithHint [C06 C18]
+//@ trusted body not verified here (sends Heartbeat messages carrying the hint)
+//@ modifies r.msgs, elems(r.msgs[len(r.msgs):])
+
+// admission of a ReadIndex request on the leader
+//@ func (r *raft) handleLeaderReadIndex [C06 C18]
+//@ noframe
+//@ requires r.wf() && r.readIndex.Q()
+//@ modifies r.readIndex.queue, entries(r.readIndex.pending), r.msgs, elems(r.msgs[len(r.msgs):]), r.readyToRead, r.droppedReadIndexes
+//@ ensures old(r.state) == leader
+// witnesses never get reads served (C18)
+//@ ensures old(m.From in r.witnesses) ==> len(r.readIndex.queue) == old(len(r.readIndex.queue)) && len(r.readyToRead) == old(len(r.readyToRead)) && len(r.msgs) == old(len(r.msgs))
+// not ready (no committed entry of the current term): dropped, never admitted
+//@ ensures !old(m.From in r.witnesses) && len(r.remotes) + len(r.witnesses) >= 2 && old(r.log.termAt(r.log.committed)) != r.term ==>
+//@    len(r.readIndex.queue) == old(len(r.readIndex.queue)) && len(r.readyToRead) == old(len(r.readyToRead)) && len(r.droppedReadIndexes) == old(len(r.droppedReadIndexes)) + 1
+// admitted: the recorded index is the commit index at admission
+//@ ensures !old(m.From in r.witnesses) && len(r.remotes) + len(r.witnesses) >= 2 && len(r.readIndex.queue) == old(len(r.readIndex.queue)) + 1 ==>
+//@    r.readIndex.pending[r.readIndex.queue[len(r.readIndex.queue) - 1]].index == old(r.log.committed) &&
+//@    r.readIndex.queue[len(r.readIndex.queue) - 1].Low == m.Hint && r.readIndex.queue[len(r.readIndex.queue) - 1].High == m.HintHigh
+// the single-voter shortcut is taken only when the quorum is 1
+//@ ensures len(r.readyToRead) > old(len(r.readyToRead)) ==> len(r.remotes) + len(r.witnesses) < 2 && r.readyToRead[len(r.readyToRead) - 1].Index == old(r.log.committed)
+
+//@ func (r *raft) handleReadIndexLeaderConfirmation [C06]
+//@ noframe
+//@ requires r.wf() && r.readIndex.Q()
+//@ requires forall c pb.SystemCtx :: c in r.readIndex.pending ==> r.readIndex.pending[c] != nil && r.readIndex.pending[c].confirmed != nil
+//@ modifies r.readIndex.queue, entries(r.readIndex.pending), allof(readStatus.index), r.msgs, elems(r.msgs[len(r.msgs):]), r.readyToRead
+// nothing is released (neither locally nor to a remote requester) before a quorum has confirmed
+//@ ensures !old(mk(pb.SystemCtx, m.Hint, m.HintHigh) in r.readIndex.pending) ==> len(r.readyToRead) == old(len(r.readyToRead)) && len(r.msgs) == old(len(r.msgs))
+//@ loop 1 invariant len(r.readyToRead) + len(r.msgs) <= old(len(r.readyToRead)) + old(len(r.msgs)) + $i + 1 && len(r.readyToRead) >= old(len(r.readyToRead)) && len(r.msgs) >= old(len(r.msgs))
